@@ -285,6 +285,13 @@ func session(kind int, id int) (obs []string, late func() []string, err error) {
 					return
 				}
 			}
+			// (the goroutine that serves this connection has just given up on another one, whose peer sent
+			// text that is not UTF-8: nothing of that may show here)
+			if kind%3 == 0 {
+				bad := vh.BuildFrame(1, true, 0, false, [4]byte{}, []byte{'o', 'k', 0xe2, 0x82})
+				wsutil.ReadServerData(duplex{bytes.NewReader(bad), &vh.Dest{}})
+				wsutil.ReadMessage(bytes.NewReader(bad), ws.StateClientSide, nil)
+			}
 			// read the echo (and possibly a pong first)
 			for {
 				p, op, e := wsutil.ReadServerData(ca)
@@ -427,6 +434,7 @@ func c19(c *ctx) {
 				// first, then the sessions draw from the same pools
 				for k := 0; k < 3; k++ {
 					refusedHandshakes(round*100 + k)
+					failedReads(round*100 + k)
 				}
 				type res struct {
 					obs  []string
@@ -507,6 +515,32 @@ func c19(c *ctx) {
 	out.Close()
 	meta.Files = map[string][]string{"records": out.Files}
 	meta.Write(c.dir)
+}
+
+// failedReads: other connections whose peers send text that is not UTF-8 (or end in the middle of a
+// sequence), cut frames and protocol violations through every read helper; these reads fail, as they
+// should - whatever the helpers share must not carry that over to the sessions.
+func failedReads(i int) {
+	bad := [][]byte{{0xff, 'a'}, {0xe2, 0x82}, {'o', 'k', 0xc3}, {0xf0, 0x9f}}
+	for bi, b := range bad {
+		for _, masked := range []bool{true, false} {
+			stream := vh.BuildFrame(1, true, 0, masked, [4]byte{1, 2, 3, byte(i)}, b)
+			frag := append(vh.BuildFrame(1, false, 0, masked, [4]byte{4, 3, 2, 1}, []byte("x")), vh.BuildFrame(0, true, 0, masked, [4]byte{9, 9, 9, 9}, b)...)
+			cut := vh.BuildFrame(2, true, 0, masked, [4]byte{7, 7, 7, 7}, vh.PBytes(i+bi, 0, 300))[:150]
+			for _, st := range [][]byte{stream, frag, cut} {
+				rw := duplex{bytes.NewReader(st), &vh.Dest{}}
+				if masked {
+					wsutil.ReadClientData(rw)
+					wsutil.ReadClientText(duplex{bytes.NewReader(st), &vh.Dest{}})
+					wsutil.ReadMessage(bytes.NewReader(st), ws.StateServerSide, nil)
+				} else {
+					wsutil.ReadServerData(rw)
+					wsutil.ReadServerText(duplex{bytes.NewReader(st), &vh.Dest{}})
+					wsutil.ReadMessage(bytes.NewReader(st), ws.StateClientSide, nil)
+				}
+			}
+		}
+	}
 }
 
 // refusedHandshakes runs handshakes that fail on either side.
